@@ -597,6 +597,68 @@ func scenarios() []scenario {
 			return strings.Join(sel, ","), nil
 		}})
 	}
+	// streams: every tree of the input file gets its own, independent draw
+	{
+		n, k := 4, 1
+		var tn []string
+		for i := 0; i < n; i++ {
+			tn = append(tn, "t"+strconv.Itoa(i))
+		}
+		line := "(" + strings.Join(tn, ",") + ");\n"
+		var cells []string
+		for _, a := range subsets(n, k) {
+			for _, b := range subsets(n, k) {
+				cells = append(cells, a+"|"+b)
+			}
+		}
+		out = append(out, scenario{name: "gotree prune --random 1 on a file of two 4-tip trees (pairs of removed tips)", cli: true, cells: uniform(cells), run: func(seed int64) (string, error) {
+			r := cli.Run(cli.Scratch(), line+line, "prune", "--random", strconv.Itoa(k), "--seed", strconv.FormatInt(seed, 10))
+			if r.Code != 0 {
+				return "", fmt.Errorf("exit %d: %s", r.Code, r.Stderr)
+			}
+			var parts []string
+			for _, l := range strings.Split(strings.TrimSpace(r.Stdout), "\n") {
+				m, err := ref.Parse(l)
+				if err != nil {
+					return "", err
+				}
+				left := map[string]bool{}
+				for _, tip := range m.Tips() {
+					left[tip] = true
+				}
+				var sel []string
+				for i, nm := range tn {
+					if !left[nm] {
+						sel = append(sel, strconv.Itoa(i))
+					}
+				}
+				parts = append(parts, strings.Join(sel, ","))
+			}
+			return strings.Join(parts, "|"), nil
+		}})
+		three := []string{"a", "b", "c"}
+		var pcells []string
+		for _, a := range perms(three) {
+			for _, b := range perms(three) {
+				pcells = append(pcells, a+"|"+b)
+			}
+		}
+		out = append(out, scenario{name: "gotree shuffletips on a file of two 3-tip trees (pairs of permutations)", cli: true, cells: uniform(pcells), run: func(seed int64) (string, error) {
+			r := cli.Run(cli.Scratch(), "(a,b,c);\n(a,b,c);\n", "shuffletips", "--seed", strconv.FormatInt(seed, 10))
+			if r.Code != 0 {
+				return "", fmt.Errorf("exit %d: %s", r.Code, r.Stderr)
+			}
+			var parts []string
+			for _, l := range strings.Split(strings.TrimSpace(r.Stdout), "\n") {
+				m, err := ref.Parse(l)
+				if err != nil {
+					return "", err
+				}
+				parts = append(parts, strings.Join(m.Tips(), ","))
+			}
+			return strings.Join(parts, "|"), nil
+		}})
+	}
 	names := []string{"a", "b", "c", "d"}
 	out = append(out, scenario{name: "gotree shuffletips n=4", cli: true, cells: uniform(perms(names)), run: func(seed int64) (string, error) {
 		r := cli.Run(cli.Scratch(), "(a,b,c,d);\n", "shuffletips", "--seed", strconv.FormatInt(seed, 10))
